@@ -336,3 +336,13 @@ package annotations
 //@   assume-pre Mapper).Get
 //@   store HTTPPassthroughBackend after FindBackend
 //@ end
+
+// C16 — a blue/green weight is the configured number, limited to 0..256 (256
+// is HAProxy's largest server weight and is not cut to 255).  That the weight
+// clusters handed to RebalanceWeight are well formed is assumed here, not proved.
+//@ count ParseWeight = strconv.ParseInt
+//@ func (*updater).buildBackendBlueGreenBalance
+//@   props C16
+//@   assume-pre Mapper).Get RebalanceWeight
+//@   loop 1 step clamp: (last(ParseWeight).0 < 0 ==> w == 0) && (last(ParseWeight).0 > 256 ==> w == 256) && (0 <= last(ParseWeight).0 && last(ParseWeight).0 <= 256 ==> w == last(ParseWeight).0)
+//@ end
